@@ -13,7 +13,8 @@ def sh(cmd, **kw):
     return subprocess.run(cmd, stdout=subprocess.PIPE, stderr=subprocess.STDOUT, text=True, **kw)
 
 def main():
-    only = sys.argv[1:]
+    only = [a for a in sys.argv[1:] if not a.startswith("--")]
+    demo_only = "--demo-only" in sys.argv  # re-run only the author's demonstration (keeps the other recorded results)
     for d in sorted(os.listdir(os.path.join(V, "seeded"))):
         if only and d not in only:
             continue
@@ -22,6 +23,7 @@ def main():
         patch = os.path.join(sd, "patch.rebased.diff") if os.path.exists(os.path.join(sd, "patch.rebased.diff")) else os.path.join(sd, "patch.diff")
         meta_p = os.path.join(sd, "meta.json")
         meta = json.load(open(meta_p)) if os.path.exists(meta_p) else {}
+        old = meta.get("verification_by_verif_author", {})
         ver = {"at_repo_commit": sh(["git", "-C", "/repo", "log", "-1", "--format=%h"]).stdout.strip(), "patch_file": os.path.basename(patch)}
         W = tempfile.mkdtemp(prefix="sv.", dir="/tmp")
         wt = os.path.join(W, "tree")
@@ -32,24 +34,41 @@ def main():
             if r.returncode != 0:
                 ver["note"] = r.stdout[-300:]
             else:
-                t = sh([os.path.join(V, "tools", "run_repo_tests.sh"), wt, "both"])
-                ver["unit_tests_pass"] = t.returncode == 0 and t.stdout.count("PASS") == 10
-                ver["unit_tests"] = "%d/10 PASS lines" % t.stdout.count("PASS")
+                if demo_only:
+                    for k in ("unit_tests_pass", "unit_tests", "checks"):
+                        if k in old:
+                            ver[k] = old[k]
+                else:
+                    t = sh([os.path.join(V, "tools", "run_repo_tests.sh"), wt, "both"])
+                    ver["unit_tests_pass"] = t.returncode == 0 and t.stdout.count("PASS") == 10
+                    ver["unit_tests"] = "%d/10 PASS lines" % t.stdout.count("PASS")
                 run = os.path.join(sd, "run.sh")
                 if os.path.exists(run):
+                    # some demonstrations create their private build directory under the author's scratch output directory: provide it
+                    import re
+                    scratch = sorted(set(re.findall(r"/tmp/wt\d+/[A-Za-z0-9]+-out", open(run).read())))
+                    for d2 in scratch:
+                        os.makedirs(d2, exist_ok=True)
                     a = sh(["bash", run, wt], timeout=1800, cwd=sd)
                     b = sh(["bash", run, "/repo"], timeout=1800, cwd=sd)
                     ver["demo_with_change_rc"] = a.returncode
                     ver["demo_without_change_rc"] = b.returncode
                     ver["demo_ok"] = a.returncode != 0 and b.returncode == 0
+                    for d2 in scratch:
+                        shutil.rmtree(d2, ignore_errors=True)
+                        try:
+                            os.rmdir(os.path.dirname(d2))
+                        except OSError:
+                            pass
                 caught = {}
-                for cid in [pid] + EXTRA.get(d, []):
+                for cid in ([] if demo_only else [pid] + EXTRA.get(d, [])):
                     env = dict(os.environ, VERIF_REPO=wt, VERIF_BUILD_ROOT=os.path.join(W, "build"), VERIF_EVIDENCE_DIR=os.path.join(W, "ev"), VERIF_FINDINGS_DIR=os.path.join(W, "findings"))
                     t0 = time.time()
                     c = sh([os.path.join(V, "check"), cid, "--tier", "quick"], env=env, cwd=V)
                     det = [l for l in c.stdout.splitlines() if "violation detail" in l]
                     caught[cid] = {"rc": c.returncode, "flagged": c.returncode == 1, "seconds": round(time.time() - t0), "first_detail": (det[0][:400] if det else "")}
-                ver["checks"] = caught
+                if not demo_only:
+                    ver["checks"] = caught
         except Exception as e:
             ver["error"] = repr(e)
         finally:
